@@ -30,6 +30,12 @@ fn main() {
     env::install_logger();
     // panics of the subject are caught and reported as cases, not printed
     std::panic::set_hook(Box::new(|_| {}));
+    // a subject that allocates without bound must end this engine (allocation failure aborts: a machinery exit, or an
+    // abnormal termination where a check supervises a child), never the machine it runs on
+    unsafe {
+        let lim = libc::rlimit { rlim_cur: 40 << 30, rlim_max: 40 << 30 };
+        libc::setrlimit(libc::RLIMIT_AS, &lim);
+    }
     if let Ok(n) = std::env::var("VERIF_THREADS") {
         if let Ok(n) = n.parse::<usize>() {
             rayon::ThreadPoolBuilder::new().num_threads(n).build_global().ok();
